@@ -291,12 +291,17 @@ class NodeWorld:
             node.peer_route_select_func = sel
         self.net.dial_policy = self._dial_policy
 
-    def start(self):
+    def start(self, on_thread=False):
+        """on_thread: Node.start() runs on a simulated thread of its own (so that a schedule explorer can interleave
+        it with the threads it starts) instead of the driver."""
         for app in self.apps:
             a = app._verif_cfg
             self.node.add_application(app, [self.peers[i] for i in a.get("peers", range(len(self.peers)))],
                                       realms=a.get("realms"))
-        self.node.start()
+        if on_thread:
+            self.start_box = self.k.spawn(self.node.start, name="starter")
+        else:
+            self.node.start()
         self.k.run()
         self.sync_dialed()
         self._hooks("start")
